@@ -38,7 +38,10 @@ def _rewrite_func(match):
 
 def osc_rematch_pattern(pattern, address):
     pattern = re.sub(_rewrite_pattern, _rewrite_func, pattern)
-    return re.fullmatch(pattern, address) is not None
+    try:
+        return re.fullmatch(pattern, address) is not None
+    except re.error:
+        return False  # A malformed pattern ('/a[', '/a{x') matches nothing.
 
 
 ### Option 2 ###
